@@ -5,12 +5,19 @@ pub assume_specification [u128::pow] (b: u128, e: u32) -> (r: u128)
     requires pow(b as int, e as nat) <= u128::MAX      // overflow panics in debug builds (wraps in release)
     ensures r as int == pow(b as int, e as nat);
 
+pub assume_specification [u128::overflowing_add] (a: u128, b: u128) -> (r: (u128, bool))
+    ensures r.0 as int == (a + b) % 0x1_0000_0000_0000_0000_0000_0000_0000_0000int, r.1 == (a + b > u128::MAX);
+
 pub mod num {
     use super::*;
     #[verifier::external_body] pub struct BigInt { _p: u8 }
     impl View for BigInt { type V = int; uninterp spec fn view(&self) -> int; }
     impl Clone for BigInt { #[verifier::external_body] fn clone(&self) -> (r: Self) ensures r@ == self@ { unimplemented!() } }
     impl FromSpecImpl<u128> for BigInt { open spec fn obeys_from_spec() -> bool { false } uninterp spec fn from_spec(v: u128) -> BigInt; }
+    impl FromSpecImpl<u32> for BigInt { open spec fn obeys_from_spec() -> bool { false } uninterp spec fn from_spec(v: u32) -> BigInt; }
+    impl From<u32> for BigInt { #[verifier::external_body] fn from(v: u32) -> (r: BigInt) ensures r@ == v as int { unimplemented!() } }
+    impl FromSpecImpl<i32> for BigInt { open spec fn obeys_from_spec() -> bool { false } uninterp spec fn from_spec(v: i32) -> BigInt; }
+    impl From<i32> for BigInt { #[verifier::external_body] fn from(v: i32) -> (r: BigInt) ensures r@ == v as int { unimplemented!() } }
     impl From<u128> for BigInt { #[verifier::external_body] fn from(v: u128) -> (r: BigInt) ensures r@ == v as int { unimplemented!() } }
     impl MulSpecImpl<BigInt> for BigInt { open spec fn obeys_mul_spec() -> bool { false } open spec fn mul_req(self, rhs: BigInt) -> bool { true } uninterp spec fn mul_spec(self, rhs: BigInt) -> BigInt; }
     impl core::ops::Mul<BigInt> for BigInt { type Output = BigInt; #[verifier::external_body] fn mul(self, rhs: BigInt) -> (r: BigInt) ensures r@ == self@ * rhs@ { unimplemented!() } }
@@ -83,6 +90,9 @@ pub mod num {
             ensures rhs@.n > 0 ==> r@ == (Frac { n: self@.n * rhs@.d, d: self@.d * rhs@.n }) { unimplemented!() } }
     }
     pub type BigRational = rational::Ratio<BigInt>;
+    /// BigUint is modelled by the same unbounded-integer type (only From, *, Ratio::new and the conversion back to u128 are used on it;
+    /// BigUint subtraction, which panics below zero, is not)
+    pub type BigUint = BigInt;
 }
 /// u128::sqrt (num::integer::Roots): floor of the square root
 #[verifier::external_body]
